@@ -300,12 +300,13 @@ status_t Thread :: WaitForNextMessageAux(ThreadSpecificData & tsd, MessageRef & 
       if (msgfd < 0) return B_BAD_OBJECT;  // semi-paranoia
 #ifdef MUSCLE_VERIF_HOOKS
       {
-         // Under a controlled scheduler the blocking happens inside the scheduler: it parks us until our signal socket is readable
-         // (MUSCLE_VERIF_GRANTED; nothing is consumed, the recursive call below absorbs the bytes as usual) or, for a timed wait,
-         // until it decides to fire the timeout (MUSCLE_VERIF_FAIL).  User-registered sockets are not watched in that case.
+         // Under a controlled scheduler the blocking happens inside the scheduler: it parks us until one of the sockets we are about
+         // to watch (our signal socket, or a user-registered one) is ready (MUSCLE_VERIF_GRANTED; nothing is consumed) or, for a timed
+         // wait, until it decides to fire the timeout (MUSCLE_VERIF_FAIL).  Once granted the waiting is over:  the code below then
+         // only polls (wakeupTime 0) and evaluates the real sockets as usual.
          const int vr = MUSCLE_VERIF_HOOK((wakeupTime == MUSCLE_TIME_NEVER) ? MUSCLE_VERIF_SEM_WAIT : MUSCLE_VERIF_SEM_TIMEDWAIT, &tsd, 0);
          if (vr == MUSCLE_VERIF_FAIL)    return B_TIMED_OUT;
-         if (vr == MUSCLE_VERIF_GRANTED) return WaitForNextMessageAux(tsd, ref, 0, optRetNumMessagesLeftInQueue);
+         if (vr == MUSCLE_VERIF_GRANTED) wakeupTime = 0;
       }
 #endif
 
